@@ -203,7 +203,7 @@ def catalogue(tier, rng, families=None, max_n=64):
                           info=info, cyclic=True, gpoly=g, component="CyclicCodeEncoder", extra={"k": n - (g.bit_length() - 1)}))
     # --- BCH: every Bose distance
     from kaira.models.fec.encoders.bch_code import get_valid_bose_distances
-    for mu in range(2, (5 if quick else 7)):
+    for mu in range(2, 7):
         if 2 ** mu - 1 > max_n:
             continue
         try:
@@ -212,6 +212,8 @@ def catalogue(tier, rng, families=None, max_n=64):
             deltas = [3]
         for delta in deltas:
             for info in ("left", "right"):
+                if quick and mu >= 5 and (info == "right" or delta < 2 ** (mu - 1) - 5):
+                    continue        # quick tier: of the long BCH codes only the low-rate ones (k small enough to enumerate)
                 add(Entry("BCH(mu=%d,delta=%d)/%s" % (mu, delta, info), "bch", (mu, delta), (lambda mu=mu, delta=delta, info=info: E.BCHCodeEncoder(mu, delta, information_set=info)),
                           info=info, cyclic=True, gpoly="obj", component="BCHCodeEncoder"))
     # --- Golay
